@@ -53,6 +53,7 @@ def main():
     demo_dir = os.path.join(seed, "demo")
     for l in run_txt.splitlines():
         l = l.strip()
+        l = re.sub(r"^\d+[.)]\s+(?=(cp|cd|cargo|git|mkdir)\b)", "", l)      # "1. cp ..." enumerations
         l = l.replace("<checkout>", WT).replace("<repo>", WT)
         l = re.sub(r"^cd \S+\s*&&\s*", "", l)
         l = re.sub(r"/tmp/seed[234]?-C\d+", WT, l)
